@@ -29,7 +29,7 @@ Inductive stmt (C:Type) :=
 | SAction (act:positive) (a:list (positive * C))
 | SRet
 | SBlock (body:list (stmt C))                     (* if / loop / for each / group *)
-| SAlt (choices:list (list (stmt C)))             (* one of *)
+| SAlt (choices:list (stmt C))                    (* one of: every choice is an SBlock *)
 | SBad.                                           (* no statement kind set: the collector code panics on it *)
 Arguments SCall {C}. Arguments SAction {C}. Arguments SRet {C}. Arguments SBlock {C}. Arguments SAlt {C}. Arguments SBad {C}.
 
@@ -123,34 +123,29 @@ Definition merge (j:nat) (dst:list (positive * cell)) (ct:ctab) : list (positive
 
 Record cstate := { cs_tab : ctab; cs_bad : bool }.
 
+(* state-passing map over a list (the loops `for _, stmt := range stmts { applied = applyAttributes(src, stmt) || applied }`) *)
+Definition map_st {A S:Type} (f:A -> S -> A * S) : list A -> S -> list A * S :=
+  fix go (l:list A) (st:S) {struct l} : list A * S :=
+    match l with
+    | [] => ([], st)
+    | x :: r => let (x', s1) := f x st in let (r', s2) := go r s1 in (x' :: r', s2)
+    end.
+
 (* applyAttributes(src = collector statement j calling t <- e, dst) *)
 Fixpoint apply_stmt (j:nat) (t e:positive) (s:stmt cell) (st:cstate) {struct s} : stmt cell * cstate :=
-  let fix go (l:list (stmt cell)) (st:cstate) {struct l} : list (stmt cell) * cstate :=
-    match l with
-    | [] => ([], st)
-    | x :: r => let (x', s1) := apply_stmt j t e x st in let (r', s2) := go r s1 in (x' :: r', s2)
-    end in
-  let fix gos (l:list (list (stmt cell))) (st:cstate) {struct l} : list (list (stmt cell)) * cstate :=
-    match l with
-    | [] => ([], st)
-    | x :: r => let (x', s1) := go x st in let (r', s2) := gos r s1 in (x' :: r', s2)
-    end in
   match s with
   | SCall t' e' a =>
       if Pos.eqb t t' && Pos.eqb e e' then
         let (a', ct') := merge j a (cs_tab st) in (SCall t' e' a', {| cs_tab := ct'; cs_bad := cs_bad st |})
       else (s, st)
   | SAction _ _ | SRet => (s, st)
-  | SBlock body => let (b', s1) := go body st in (SBlock b', s1)
-  | SAlt ch => let (c', s1) := gos ch st in (SAlt c', s1)
+  | SBlock body => let (b', s1) := map_st (apply_stmt j t e) body st in (SBlock b', s1)
+  | SAlt ch => let (c', s1) := map_st (apply_stmt j t e) ch st in (SAlt c', s1)
   | SBad => (s, {| cs_tab := cs_tab st; cs_bad := true |})
   end.
 
-Fixpoint apply_stmts (j:nat) (t e:positive) (l:list (stmt cell)) (st:cstate) : list (stmt cell) * cstate :=
-  match l with
-  | [] => ([], st)
-  | x :: r => let (x', s1) := apply_stmt j t e x st in let (r', s2) := apply_stmts j t e r s1 in (x' :: r', s2)
-  end.
+Definition apply_stmts (j:nat) (t e:positive) : list (stmt cell) -> cstate -> list (stmt cell) * cstate :=
+  map_st (apply_stmt j t e).
 
 (* for callEPName, callEndpoint := range app.Endpoints { skip the collector; apply to every statement } *)
 Fixpoint apply_eps (cn:positive) (j:nat) (t e:positive) (eps:list (positive * endpoint cell)) (st:cstate)
@@ -195,7 +190,7 @@ Fixpoint load_stmt (s:stmt attr) : stmt cell :=
   | SAction x a => SAction x (load_attrs a)
   | SRet => SRet
   | SBlock b => SBlock (map load_stmt b)
-  | SAlt ch => SAlt (map (map load_stmt) ch)
+  | SAlt ch => SAlt (map load_stmt ch)
   | SBad => SBad
   end.
 Definition load_ep (e:endpoint attr) : endpoint cell := {| e_attrs := load_attrs (e_attrs e); e_stmts := map load_stmt (e_stmts e) |}.
@@ -209,7 +204,7 @@ Fixpoint obs_stmt (ct:ctab) (s:stmt cell) : stmt attr :=
   | SAction x a => SAction x (obs_attrs ct a)
   | SRet => SRet
   | SBlock b => SBlock (map (obs_stmt ct) b)
-  | SAlt ch => SAlt (map (map (obs_stmt ct)) ch)
+  | SAlt ch => SAlt (map (obs_stmt ct) ch)
   | SBad => SBad
   end.
 Definition obs_ep (ct:ctab) (e:endpoint cell) : endpoint attr :=
@@ -240,24 +235,27 @@ Definition collector (cn:positive) (eps:list (positive * endpoint attr)) : optio
         end
   end.
 
-(* postProcess: applications in sorted order, each against the module as updated so far *)
-Fixpoint post_apps (cn:positive) (names:list positive) (m:pmodule) : option pmodule :=
-  match names with
-  | [] => Some m
-  | n :: r =>
-      match lookup n m with
-      | None => post_apps cn r m
-      | Some a =>
-          let a1 := mix_all m a in
-          match collector cn (a_eps a1) with
-          | None => None
-          | Some eps' =>
-              post_apps cn r (put n {| a_mixins := a_mixins a1; a_types := a_types a1; a_views := a_views a1; a_eps := eps' |} m)
-          end
+(* postProcess: `for _, appName := range appNames` (sorted) { app := mod.Apps[appName]; ... } - the module is a list
+   sorted by name, so this is one pass over the list in which every application is rebuilt in place against the
+   module as it is at that moment: `done` = the applications already rebuilt, `todo` = this one and those to come *)
+Definition step_app (cn:positive) (m:pmodule) (a:app attr) : option (app attr) :=
+  let a1 := mix_all m a in
+  match collector cn (a_eps a1) with
+  | None => None
+  | Some eps' => Some {| a_mixins := a_mixins a1; a_types := a_types a1; a_views := a_views a1; a_eps := eps' |}
+  end.
+
+Fixpoint post_go (cn:positive) (done todo:pmodule) : option pmodule :=
+  match todo with
+  | [] => Some done
+  | (n, a) :: r =>
+      match step_app cn (done ++ todo) a with
+      | None => None
+      | Some a' => post_go cn (done ++ [(n, a')]) r
       end
   end.
 
-Definition post (cn:positive) (m:pmodule) : option pmodule := post_apps cn (map fst m) m.
+Definition post (cn:positive) (m:pmodule) : option pmodule := post_go cn [] m.
 
 (* ---- equality of observations ---- *)
 Definition attr_eqb (a b:attr) : bool :=
@@ -271,14 +269,12 @@ Definition attrs_eqb (a b:list (positive * attr)) : bool := list_eqb (kv_eqb att
 Fixpoint stmt_eqb (a b:stmt attr) {struct a} : bool :=
   let fix go (x y:list (stmt attr)) {struct x} : bool :=
     match x, y with [], [] => true | s :: x', t :: y' => stmt_eqb s t && go x' y' | _, _ => false end in
-  let fix gos (x y:list (list (stmt attr))) {struct x} : bool :=
-    match x, y with [], [] => true | s :: x', t :: y' => go s t && gos x' y' | _, _ => false end in
   match a, b with
   | SCall t e x, SCall t' e' y => Pos.eqb t t' && Pos.eqb e e' && attrs_eqb x y
   | SAction n x, SAction n' y => Pos.eqb n n' && attrs_eqb x y
   | SRet, SRet | SBad, SBad => true
   | SBlock x, SBlock y => go x y
-  | SAlt x, SAlt y => gos x y
+  | SAlt x, SAlt y => go x y
   | _, _ => false
   end.
 Definition ep_eqb (a b:endpoint attr) : bool :=
